@@ -43,6 +43,18 @@ fn judge(w: &mut Worker, c: Case, tool: Option<&RefTool>, nth: &mut u64) {
         r.count("cross_observation_panics", 1);
         r.note(&format!("cross observation (C06): panic at {} for class {}", got.panic().unwrap().site(), c.class));
     }
+    // a build with reduced limits may refuse what lies beyond them (that is what the limits are
+    // for, C14): there, a triple the RFC accepts is only required to be accepted if its shape is
+    // inside the build's limits; a triple the RFC rejects must be rejected in every build
+    let beyond_build = want
+        && crate::common::build_limits().is_some()
+        && !hss::parse_sig(&cfg, c.sig).map(|l| crate::common::in_build_limits(&l.sigs.iter().map(|s| model::Level { h: s.h, w: s.ots.w }).collect::<Vec<_>>())).unwrap_or(false);
+    if beyond_build {
+        r.count("accepting_triples_beyond_the_build_limits", 1);
+        if !lib_accepts {
+            return;
+        }
+    }
     if lib_accepts != want {
         let dir = if lib_accepts { "lib_accepts_rfc_rejects" } else { "lib_rejects_rfc_accepts" };
         r.violation(
